@@ -8,9 +8,9 @@ CFG = {
     "trivial_prefix": ("-;",),
     "technique": "Lean 4 proofs over an executable model of vxfw.go with arbitrary widget oracle (and an arbitrary set of failing handler calls); "
                  "model tied to the source by (a) Gen/VxfwCases.lean (switch arms of App.Run and App.handleCommand, statement skeletons of the ten "
-                 "handler functions, regenerated every run, compared by theorem), (a') Gen/VxfwBodies.lean: the bodies of the six dispatcher functions "
-                 "translated into syntax; the bodies of focusHandler.handleEvent, mouseHandler.handleEvent, focusHandler.focusWidget, mouseHandler.mouseExit and mouseEnter are EXECUTED by an interpreter (Model/VxfwInterp.lean) and proved equal to "
-                 "the model's dispatch incl. the returned error, and (b) two correspondence streams: unexported handlers through "
+                 "handler functions, regenerated every run, compared by theorem), (a') Gen/VxfwBodies.lean: the bodies of the handler functions "
+                 "translated into syntax — round 4: eight bodies, also mouseHandler.update (labelled continue resolved by the translator) and App.handleCommand (type switch) —; ALL EIGHT (focusHandler.handleEvent, mouseHandler.handleEvent, focusWidget, updatePath, mouseHandler.update, mouseExit, mouseEnter, App.handleCommand) are EXECUTED by an interpreter (Model/VxfwInterp.lean, two layers) and proved equal to "
+                 "the model functions incl. the returned error; the Run loop calling the executed bodies (bRun) is proved equal to the model's eRun; and (b) two correspondence streams: unexported handlers through "
                  "verif_hooks_c15.go, and the real App.Run on a fake console",
     "rule": "C15: random widget sets (1..12 widgets, any subset capturing), random surface trees (depth <= 4, fan-out <= 3, overlapping "
             "children, z-order, children sticking out of the parent, root surface sometimes owned by another widget; every widget drawn once — "
@@ -25,10 +25,14 @@ CFG = {
                      "sort.Slice on <= 12 children modelled as Go's stable insertion sort (validated by the `render` ops)",
                      "SetMouseShape/SetTitle/CopyToClipboard/SendNotification are one abstract command `other k` (validated with SetTitle)",
                      "errors returned by Draw (layout) are outside the model (Run returns them)",
-                     "the interpreter Model/VxfwInterp.lean (what a handler call, a type assertion w.(EventCapturer), app.handleCommand and a "
-                     "return mean; a hit result is its widget) is the semantics of the Go subset handle_event_body_eq_model / "
-                     "mouse_handle_event_body_eq_model / focus_widget_body_eq_model / mouse_exit_body_eq_model / mouse_enter_body_eq_model speak about; updatePath and mouseHandler.update are translated "
-                     "(fully_recognised) but not interpreted (update is the model function inside the interpreted mouse dispatcher)"],
+                     "the interpreter Model/VxfwInterp.lean (what a handler call, a type assertion w.(EventCapturer), a type switch on a command value, "
+                     "struct equality of hit results, a labelled continue, app.handleCommand and a return mean; in the dispatchers a hit result is its widget, "
+                     "in update the whole struct) is the semantics of the Go subset the eight *_body_eq_model theorems speak about; inside an interpreted body "
+                     "the calls app.handleCommand / m.update / f.focusWidget / f.findPath / hitTest / containsPoint are the model functions (the first three "
+                     "are identified with their own executed bodies by their body_eq_model theorems; findPath, hitTest, containsPoint and the child sort are "
+                     "tied by name-level skeletons + correspondence only); the event switch and frame step of App.Run are transcribed (arms pinned by "
+                     "run_switch_covered / run_arm_count), not interpreted",
+                     "the translator extract/cmd/C15/skel.go resolves `continue L` to a loop distance (label names, like local names, are not part of the tie)"],
     "level_text": "vxfw routing, focus and hover, after the repairs of F115a/F115b/F43 in /repo. Proved for every widget behaviour (oracle), state, "
                   "history and nesting depth, without exclusions: key_routing (capture root->focused, target, bubble parent->root, stop at the first "
                   "consumed offer) and key_routing_drawn (after ANY history of the Run loop the path is the drawn chain of the widget focused now — "
@@ -47,12 +51,24 @@ CFG = {
                   "mouse_exit_body_closes: the executed mouseExit empties the hit list). commands_once_history_wf: no budget "
                   "hypothesis for handlers that do not answer focus notifications with focus commands (run_never_stuck). F115c (recorded): two widgets answering "
                   "FocusIn with a focus command for each other exhaust every nesting budget (ping_pong_stuck, all fuels) - on the real code a fatal "
-                  "stack overflow.",
-    "level_note": "Proved: 76 theorems (Props/C15 27, C15Err 7, C15Gen 12, C15Body 14, witnesses 16 showing the pre-fix code violating the statements and the fixed code meeting them). Validated by "
+                  "stack overflow. Round 4: the regenerated bodies of focusHandler.updatePath, mouseHandler.update (the hit-list diff: MouseLeave to the old hits "
+                  "that are not among the new ones as whole structs, then MouseEnter to the new ones not among the old, error returned at once with the hit list kept) "
+                  "and App.handleCommand (type switch, recursion on BatchCmd / []Command to any depth = Cmd.flatten, focus arm with its error logged and dropped), "
+                  "interpreted, ARE eUpdatePath / eMouseUpdate / eHandleCommand for every oracle, failing-call set, state and budget (update_path_body_eq_model, "
+                  "mouse_update_body_eq_model, handle_command_body_eq_model); the Run loop calling the executed bodies is eRun over every history "
+                  "(run_bodies_eq_model), hence hover_alternates and closed-on-FocusOut hold of the loop over the executed bodies, frames that remove hovered widgets "
+                  "and terminal focus in/out included (hover_alternates_bodies, hover_closed_bodies; non-failing handlers). commands_once_history_ranked: the "
+                  "hypothesis stuck = false is replaced by a well-founded measure - a rank on widgets (<= R) such that focus commands issued from FocusIn/FocusOut "
+                  "answers go strictly down in rank; then a budget >= 3R+4 never runs out over any history (generalises run_never_stuck; non-vacuity: A's FocusIn "
+                  "focuses B, B answers nil). F115c decision: not a violation of C15's text (every focus change that happens is one FocusOut/FocusIn pair; what "
+                  "fails is termination, which the text does not promise); the ping-pong oracle admits no rank (no_rank) and exhausts every budget also through the "
+                  "executed handleCommand body (ping_pong_stuck_body).",
+    "level_note": "Proved: 89 theorems (Props/C15 29, C15Err 7, C15Gen 12, C15Body 23, witnesses 18 showing the pre-fix code violating the statements, the fixed code meeting them, and F115c). Validated by "
                   "correspondence only: that the model (incl. the error plumbing) equals vxfw.go (0 mismatches expected on ~38k quick / ~500k thorough op "
                   "lines, both streams), Go's sort.Slice stability for <= 12 children, uint16 coordinate arithmetic (proved equal to integer "
                   "arithmetic for sizes < 65536, hit_list_is_under). Modelled not verified: stack overflow on unbounded refocus recursion (fuel; Witness.F115c proves the budget runs out for every budget for ping-pong handlers; "
-                  "commands_once_history keeps the hypothesis stuck = false), "
+                  "commands_once_history keeps the hypothesis stuck = false, commands_once_history_ranked / _wf discharge it for ranked / focus-free notification handlers), "
+                  "the knot handleCommand <-> focusWidget as ONE recursive interpreted program (each body is interpreted with the other as the model function), "
                   "timing of the 8 ms frame timer (frames are explicit steps), Draw errors.",
     "assumptions": ["at most 12 children per surface (Go's sort.Slice is then a stable insertion sort)",
                     "surface sizes fit uint16 (they are uint16 in Go)",
